@@ -20,11 +20,23 @@ class SimMPIError(Exception):
 
 
 def _buf(b):
-    """buffer argument -> numpy array (view, never a copy)"""
+    """buffer argument -> numpy array (view, never a copy); objects that keep their data in an ndarray attribute `v`
+    (the Z_p vectors of the verification harness) expose that array"""
     if isinstance(b, (list, tuple)):
         b = b[0]
+    if hasattr(b, 'v') and isinstance(getattr(b, 'v'), np.ndarray):
+        return b.v
     a = np.asarray(b)
     return a
+
+
+def _written(b):
+    """tell the owner of a receive buffer that it was written (Z_p vectors reduce modulo p)"""
+    if isinstance(b, (list, tuple)):
+        b = b[0]
+    f = getattr(b, 'verif_after_write', None)
+    if f is not None:
+        f()
 
 
 def _csum(a):
@@ -58,6 +70,7 @@ class World:
         self.failed = None
         self.world_comm = Intracomm(self, list(range(nranks)), self._new_comm_id())
         self.choices = []  # scheduling decisions taken (for replay)
+        self.early_collectives = True
 
     def _new_comm_id(self):
         self.ncomm += 1
@@ -224,12 +237,23 @@ class Request:
 REQUEST_NULL = None
 
 
+def _resolve_world():
+    return _tls.world.world_comm
+
+
 class Intracomm:
     def __init__(self, world, members, cid):
         self.w = world
         self.members = list(members)  # global ranks, in comm-rank order
         self.cid = cid
         self.collcount = {}
+
+    # -- pickling: as in mpi4py, the predefined world communicator is restored as the very same handle; communicators made by
+    #    Split cannot be serialised (pySDC's controller_nonMPI then builds its steps one by one instead of copying them)
+    def __reduce__(self):
+        if self is self.w.world_comm:
+            return (_resolve_world, ())
+        raise ValueError('cannot serialize a user-defined communicator')
 
     # -- identity --
     @property
@@ -296,22 +320,45 @@ class Intracomm:
         req.Wait()
         return req.rec['obj']
 
-    # -- collectives: rendez-vous on a per-communicator counter --
+    # -- collectives: matched by call order on the communicator --
+    # completion rules (MPI: a collective may return as soon as the caller's part is done):
+    #   rooted reduction : the root needs every contribution; a non-root MAY return at once (its contribution is copied on entry)
+    #   broadcast        : a non-root needs the root; the root MAY return at once
+    #   everything else  : all members must have arrived
+    # "MAY" is a scheduler decision: policy eager -> at once, lazy -> wait for all, random -> coin
     def _coll(self, kind, value, root=None, op=None):
         me = _tls.rank
         w = self.w
+        myrank = self.rank
         with w.lock:
             idx = self.collcount.get(me, 0)
             self.collcount[me] = idx + 1
             slot = w.colls.setdefault((self.cid, idx), dict(kind=kind, vals={}, root=root, op=op, result=None, left=0))
-            if slot['kind'] != kind:
-                w.failed = f'collective mismatch on comm {self.cid} #{idx}: {slot["kind"]} vs {kind}'
-                w.log(me, 'coll_mismatch', comm=self.cid, idx=idx, op=kind, other=slot['kind'])
+            if slot['kind'] != kind or slot['root'] != root or slot['op'] != op:
+                mine = f'{kind}(root={root}, op={op})'
+                other = f"{slot['kind']}(root={slot['root']}, op={slot['op']})"
+                w.failed = f'collective mismatch on comm {self.cid} #{idx}: {other} vs {mine}'
+                w.log(me, 'coll_mismatch', comm=self.cid, idx=idx, op=kind, other=slot['kind'], root=-1 if root is None else int(root))
                 w.lock.notify_all()
                 raise SimMPIError(w.failed)
-            slot['vals'][self.rank] = value
-            w.log(me, 'coll', comm=self.cid, idx=idx, op=kind)
-        w.block_until(me, lambda: len(slot['vals']) == self.size, ('coll', self.cid, idx))
+            slot['vals'][myrank] = value
+            early = False
+            if w.early_collectives and kind in ('Reduce', 'reduce', 'Bcast', 'bcast', 'gather', 'Gather'):
+                early = w.policy == 'eager' or (w.policy == 'random' and w.rng.random() < 0.5)
+            w.log(me, 'coll', comm=self.cid, idx=idx, op=kind, root=-1 if root is None else int(root), cr=myrank, size=self.size)
+        if kind in ('Reduce', 'reduce', 'gather', 'Gather'):
+            need_all = myrank == root or not early
+            cond = (lambda: len(slot['vals']) == self.size) if need_all else (lambda: True)
+        elif kind in ('Bcast', 'bcast'):
+            if myrank == root:
+                cond = (lambda: True) if early else (lambda: len(slot['vals']) == self.size)
+            else:
+                cond = (lambda: root in slot['vals']) if early else (lambda: len(slot['vals']) == self.size)
+        else:
+            cond = lambda: len(slot['vals']) == self.size  # noqa: E731
+        w.block_until(me, cond, ('coll', self.cid, idx))
+        with w.lock:
+            w.log(me, 'coll_done', comm=self.cid, idx=idx, op=kind, root=-1 if root is None else int(root), cr=myrank, size=self.size)
         return slot
 
     def Barrier(self):
@@ -322,14 +369,16 @@ class Intracomm:
         return [s['vals'][r] for r in range(self.size)]
 
     def bcast(self, obj=None, root=0):
-        s = self._coll('bcast', obj, root=root)
+        import copy
+        s = self._coll('bcast', copy.deepcopy(obj) if self.rank == root else None, root=root)
         return s['vals'][root]
 
     def Bcast(self, buf, root=0):
         a = _buf(buf)
-        s = self._coll('Bcast', a, root=root)
+        s = self._coll('Bcast', np.array(a, copy=True) if self.rank == root else None, root=root)
         if self.rank != root:
             a[...] = s['vals'][root].reshape(a.shape)
+            _written(buf)
 
     @staticmethod
     def _reduce(vals, op):
@@ -367,6 +416,7 @@ class Intracomm:
         else:
             raise SimMPIError(f'unsupported op {op}')
         _buf(recvbuf)[...] = r
+        _written(recvbuf)
 
     def Reduce(self, sendbuf, recvbuf, root=0, op=SUM):
         a = np.array(_buf(sendbuf), copy=True)
@@ -377,6 +427,7 @@ class Intracomm:
             for v in vals[1:]:
                 r = (r + v) if op == SUM else (np.maximum(r, v) if op == MAX else np.minimum(r, v))
             _buf(recvbuf)[...] = r
+            _written(recvbuf)
 
     def Split(self, color=0, key=0):
         me = _tls.rank
